@@ -44,6 +44,21 @@ def fragOk (l : Live) : Op → Bool
   | .writeFile p _ => !(isDirAt l p) && emptyOrAbsent l p
   | _ => false
 
+/-- The fragment of `C10_partial` on the committed code.  With F-C10-1 and F-C10-9 repaired nothing
+    depends on the state any more: every call except namespace removal / rename (`remove_file`,
+    `remove_dir`, `remove_dir_all`, `rename` — open findings F-C10-2,3,4,5,6,8) and `create_dir_all`
+    (not covered by the proof). -/
+def fragOkC : Op → Bool
+  | .mkdirAll _ => false
+  | .rmdir _ => false
+  | .rmdirAll _ => false
+  | .unlink _ => false
+  | .rename _ _ => false
+  | .crash => false
+  | _ => true
+
+def fragRunC (h : List Op) : Bool := h.all fragOkC
+
 /-- the whole history stays inside the fragment -/
 def fragRun : Live → List Op → Bool
   | _, [] => true
@@ -57,6 +72,9 @@ def opFlat : Op → Bool
   | .mkdir _ => false
   | .syncDir p => p == []
   | _ => true
+
+/-- the flat fragment of `C07_partial` on the committed code (state independent, see `fragOkC`) -/
+def flatRunC (h : List Op) : Bool := h.all fun op => fragOkC op && opFlat op
 
 def flatRun : Live → List Op → Bool
   | _, [] => true
